@@ -256,7 +256,7 @@ theorem invC_apply (sc : Nat → Script) (s : St) (h : InvC s) (e : Ev) : InvC (
   | unsubCb n cb =>
     simp only [apply]; split
     · exact ⟨h.dataDone, h.waitNone, h.wokenSome, h.retDone, h.deadline, h.timedOut, h.dAbsent, h.wAbsent⟩
-    · exact h
+    · exact ⟨h.dataDone, h.waitNone, h.wokenSome, h.retDone, h.deadline, h.timedOut, h.dAbsent, h.wAbsent⟩
   | unsubOnce n sid =>
     simp only [apply]; split
     · exact ⟨h.dataDone, h.waitNone, h.wokenSome, h.retDone, h.deadline, h.timedOut, h.dAbsent, h.wAbsent⟩
@@ -264,8 +264,8 @@ theorem invC_apply (sc : Nat → Script) (s : St) (h : InvC s) (e : Ev) : InvC (
   | spawnDispatch n v =>
     have hab := h.dAbsent s.nd (Nat.le_refl _)
     have keep : ∀ n' v', (∃ i', (s.d i').name = n' ∧ (s.d i').ph = .done v') →
-        ∃ i', (upd s.d s.nd ⟨n, v, .created, [], 0, []⟩ i').name = n' ∧
-          (upd s.d s.nd ⟨n, v, .created, [], 0, []⟩ i').ph = .done v' := by
+        ∃ i', (upd s.d s.nd ⟨n, v, .created, [], 0, [], s.clock, fun cb => s.nSub n cb⟩ i').name = n' ∧
+          (upd s.d s.nd ⟨n, v, .created, [], 0, [], s.clock, fun cb => s.nSub n cb⟩ i').ph = .done v' := by
       rintro n' v' ⟨i', h1, h2⟩
       have : i' ≠ s.nd := fun e => by rw [e, hab] at h2; simp at h2
       exact ⟨i', by rw [upd_other _ _ _ _ this]; exact h1, by rw [upd_other _ _ _ _ this]; exact h2⟩
@@ -280,7 +280,7 @@ theorem invC_apply (sc : Nat → Script) (s : St) (h : InvC s) (e : Ev) : InvC (
     have := invC_updW { s with nw := s.nw + 1 }
       ⟨h.dataDone, h.waitNone, h.wokenSome, h.retDone, h.deadline, h.timedOut, h.dAbsent,
         fun j hj => h.wAbsent j (by have : s.nw + 1 ≤ j := hj; omega)⟩
-      s.nw ⟨n, to, .created, 0⟩ (by show s.nw < s.nw + 1; omega) (by simp) (by simp) (by simp) (by simp) (by simp)
+      s.nw ⟨n, to, .created, 0, false⟩ (by show s.nw < s.nw + 1; omega) (by simp) (by simp) (by simp) (by simp) (by simp)
     exact this
   | stepD i => exact invC_stepD sc s h i
   | stepW j => exact invC_stepW s h j
